@@ -200,6 +200,7 @@ Section Disc.
     fa_fragid : aget (S "fragid") a = Some (VList [VInt (Z.of_nat (owner C x))]);
     fa_arom : aget (S "aromatic") a = aget (S "aromatic") (payload C x);
     fa_rs : aget (S "rs_isomer") a = None;
+    fa_ez : aget (S "ez_isomer_atoms") a = None;
     fa_payload : forall key v, aget key (payload C x) = Some v -> ~ In key reserved -> aget key a = Some v }.
 
   Record inv (p : nat) (mol : graph) (fgs : fgraphs) : Prop := {
@@ -375,6 +376,8 @@ Section Disc.
           rewrite aget_aset_other by (intros E; apply str_eqb_eq in E; vm_compute in E; discriminate). apply (ta_arom _ _ _ _ Ha).
         * rewrite stamped_other by (intros E; apply str_eqb_eq in E; vm_compute in E; discriminate). unfold val.
           rewrite aget_aset_other by (intros E; apply str_eqb_eq in E; vm_compute in E; discriminate). apply (ta_rs _ _ _ _ Ha).
+        * rewrite stamped_other by (intros E; apply str_eqb_eq in E; vm_compute in E; discriminate). unfold val.
+          rewrite aget_aset_other by (intros E; apply str_eqb_eq in E; vm_compute in E; discriminate). apply (ta_ez _ _ _ _ Ha).
         * intros key0 v Hv Hr. destruct (not_reserved key0 Hr) as (R1 & R2 & _). rewrite stamped_other by assumption.
           unfold val. rewrite aget_aset_other by assumption. now apply (ta_payload _ _ _ _ Ha).
       + destruct (i_attrs _ _ _ I x Hx) as (a & Ea & Fa); [lia|]. exists a. split; [|exact Fa]. rewrite Aold; [exact Ea|].
